@@ -48,7 +48,9 @@ package main
 
 import (
 	"fmt"
+	"maps"
 	"math"
+	"slices"
 	"sort"
 	"strings"
 	"time"
@@ -61,6 +63,7 @@ import (
 
 	"verif/mc"
 	"verif/model/geomref"
+	"verif/model/observe"
 )
 
 var namePool = []string{".notdef", "space", "A", "B", "Aacute"}
@@ -301,6 +304,41 @@ func checkFont(c *mc.Ctx, fc fontCase) mc.Verdict {
 		fs = append(fs, finding{"C19:" + key, fmt.Sprintf(format, a...)})
 	}
 
+	// queries are observations: the font is what it was before, and what they
+	// return belongs to the caller (overwriting it changes no later answer)
+	// (the deep comparison of the whole value is made for one case in eight, chosen
+	// by a pure function of the case, and so are the result-ownership checks)
+	deep := (fc.mask+fc.widthRot+fc.outline[0]+fc.outline[1]+fc.outline[2]+fc.outline[3]+fc.outline[4]+len(fc.encDesc))%8 == 0
+	fontBefore := ""
+	if deep {
+		fontBefore = observe.Dump(f)
+	}
+	if deep {
+		l0 := f.GlyphList()
+		keep := append([]string(nil), l0...)
+		for i := range l0 {
+			l0[i] = "overwritten"
+		}
+		_ = append(l0, "x")
+		if l1 := f.GlyphList(); !slices.Equal(l1, keep) {
+			add("type1.GlyphList:result-shared", "GlyphList() = %q, and %q after the caller overwrote the first result", keep, l1)
+		}
+		// (BuiltinEncoding is an accessor: it returns the Encoding field itself)
+		w0 := f.WidthsMapPDF()
+		keepW := maps.Clone(w0)
+		for k := range w0 {
+			w0[k] = -1
+		}
+		w0["overwritten"] = 1
+		if w1 := f.WidthsMapPDF(); !maps.Equal(w1, keepW) {
+			add("type1.WidthsMapPDF:result-shared", "WidthsMapPDF() = %v, and %v after the caller overwrote the first result", keepW, w1)
+		}
+		if deep {
+			if after := observe.Dump(f); after != fontBefore {
+				add("type1.queries-change-the-font", "the font value differs after GlyphList/WidthsMapPDF results were overwritten: %s", after)
+			}
+		}
+	}
 	// glyph list, count, encoding
 	list := f.GlyphList()
 	n := f.NumGlyphs()
@@ -430,6 +468,11 @@ func checkFont(c *mc.Ctx, fc fontCase) mc.Verdict {
 
 	outcome := fmt.Sprintf("type1 glyphs=%d fontbox=%s origin-glyph=%v", len(set), map[bool]string{true: "zero", false: "nonzero"}[fbp == [4]float64{}], mayPDF || mayGS)
 	nontrivial := len(list) > 1 || fbp != [4]float64{} || f.GlyphWidthPDF(".notdef") != 0
+	if deep {
+		if after := observe.Dump(f); after != fontBefore {
+			add("type1.queries-change-the-font", "the font value differs after the query methods were called: %s", after)
+		}
+	}
 	return verdict(fs, render, outcome, nontrivial, c)
 }
 
@@ -486,6 +529,22 @@ func checkMetrics(c *mc.Ctx, ac afmCase) mc.Verdict {
 	add := func(key, format string, a ...any) {
 		fs = append(fs, finding{"C19:" + key, fmt.Sprintf(format, a...)})
 	}
+	deepM := (ac.mask+ac.widthRot+ac.box[0]+ac.box[1]+ac.box[2]+ac.box[3]+ac.box[4]+len(ac.encDesc))%8 == 0
+	metricsBefore := ""
+	if deepM {
+		metricsBefore = observe.Dump(m)
+	}
+	if deepM {
+		l0 := m.GlyphList()
+		keep := append([]string(nil), l0...)
+		for i := range l0 {
+			l0[i] = "overwritten"
+		}
+		_ = append(l0, "x")
+		if l1 := m.GlyphList(); !slices.Equal(l1, keep) {
+			add("afm.GlyphList:result-shared", "GlyphList() = %q, and %q after the caller overwrote the first result", keep, l1)
+		}
+	}
 	list := m.GlyphList()
 	n := m.NumGlyphs()
 	c.Steps(2)
@@ -512,6 +571,11 @@ func checkMetrics(c *mc.Ctx, ac afmCase) mc.Verdict {
 		c.Step()
 		if got != want {
 			add("afm.GlyphWidthPDF:"+what, "GlyphWidthPDF(%q) = %v, expected %v", name, got, want)
+		}
+	}
+	if deepM {
+		if after := observe.Dump(m); after != metricsBefore {
+			add("afm.queries-change-the-metrics", "the metrics value differs after the query methods were called: %s", after)
 		}
 	}
 	outcome := fmt.Sprintf("afm glyphs=%d fontbox=%s", len(set), map[bool]string{true: "zero", false: "nonzero"}[fb == [4]float64{}])
